@@ -393,4 +393,169 @@ theorem ltBytes_eq_lexLt : ∀ (a b : List UInt8), a.length = b.length →
       have e' : (x == y) = false := by simpa using e
       simp [this, e']
 
+/-! ### success implies faithfulness, with no size hypothesis at all -/
+
+theorem mkCell_eq_of_ok (b : List Bool) (r : List Cell) (c : Cell) (h : mkCell b r = .ok c) : c = Cell.ordinary b r := by
+  unfold mkCell at h
+  split at h
+  · cases h
+  · split at h
+    · cases h
+    · cases h; rfl
+
+/-- whenever `encodeMap` succeeds on a bit-sorted list of `m`-bit keys, what it wrote is the cell tree of a valid
+`Hashmap m X` whose meaning is exactly the list — whatever the sizes of the values (a value that does not fit makes
+the encoder fail, it never yields a wrong tree). `pay v` is what the value encoder produces. -/
+theorem encodeMap_ok_tree (C : Codec V) (pay : V → List Bool × List Cell) :
+    ∀ (fuel m : Nat) (kvs : List (Key × V)) (c : Cell), (∀ kv ∈ kvs, kv.1.length = m) → SortedKV kvs →
+      (∀ kv ∈ kvs, C.enc kv.2 = .ok (pay kv.2)) → encodeMap C fuel kvs (m : Int) = .ok c →
+      ∃ t : HTree V, t.Valid m ∧ t.meaning = kvs ∧ c = t.toCell pay m
+  | 0, _, _, _, _, _, _, h => by simp [encodeMap] at h
+  | f + 1, m, [], c, _, _, _, h => by simp [encodeMap] at h
+  | f + 1, m, [(k, v)], c, hlen, _, henc, h => by
+    have hk : k.length = m := hlen (k, v) (by simp)
+    have he := henc (k, v) (by simp)
+    simp only [encodeMap, he, encLabelBits_eq] at h
+    exact ⟨.leaf (canonLbl k m) v, by simp [HTree.Valid, hk], by simp [HTree.meaning],
+      by simpa [HTree.toCell] using mkCell_eq_of_ok _ _ _ h⟩
+  | f + 1, m, (k0, v0) :: kv1 :: more, c, hlen, hs, henc, hok => by
+    have hne1 : (kv1 :: more) ≠ [] := by simp
+    let last := (kv1 :: more).getLast hne1
+    have hlast_mem1 : last ∈ kv1 :: more := List.getLast_mem hne1
+    have hlast_mem : last ∈ (k0, v0) :: kv1 :: more := List.mem_cons_of_mem _ hlast_mem1
+    have hk0 : k0.length = m := hlen (k0, v0) (by simp)
+    have hkl : last.1.length = m := hlen last hlast_mem
+    have hhead := (List.pairwise_cons.mp hs).1
+    have hlt : lexLt k0 last.1 = true := hhead last hlast_mem1
+    obtain ⟨a', b', hk0p, hklp, hab⟩ := lcp_split_lt k0 last.1 (by omega) hlt
+    have hne : k0 ≠ last.1 := by intro h; rw [h, lexLt_irrefl] at hlt; cases hlt
+    have hcl : commonLabel (m : Int) k0 last.1 = .ok (lcp k0 last.1) := commonLabel_eq_lcp m k0 last.1 hk0 hkl hne
+    generalize hp : lcp k0 last.1 = p at hk0p hklp hcl
+    have hpm : p.length + 1 + a'.length = m := by rw [hk0p] at hk0; simp at hk0; omega
+    have hgl : ((k0, v0) :: kv1 :: more).getLast (by simp) = last := by simp [last]
+    have hok' : encodeFork (encodeMap C f) ((k0, v0) :: kv1 :: more) (m : Int) k0 last.1 = .ok c := by
+      simpa [encodeMap] using hok
+    have hpre : ∀ kv ∈ (k0, v0) :: kv1 :: more, ∃ k', kv.1 = p ++ k' := by
+      intro kv hkv
+      have hle1 : lexLe k0 kv.1 := by
+        rcases List.mem_cons.mp hkv with h | h
+        · right; rw [h]
+        · left; exact hhead kv h
+      have hle2 : lexLe kv.1 last.1 := by
+        have := pairwise_le_getLast _ (by simp) hs kv hkv
+        rw [hgl] at this
+        rcases this with h | h
+        · left; exact h
+        · right; rw [h]
+      rw [hk0p] at hle1
+      rw [hklp] at hle2
+      exact prefix_of_between p (false :: a') (true :: b') kv.1 (by rw [← hk0p, hk0, hlen kv hkv]) hle1 hle2
+    let K := ((k0, v0) :: kv1 :: more).map fun kv => (kv.1.drop p.length, kv.2)
+    have hK : (k0, v0) :: kv1 :: more = K.map fun kv => (p ++ kv.1, kv.2) := map_drop_prefix p _ hpre
+    have hKlen : ∀ kv ∈ K, kv.1.length = m - p.length := by
+      intro kv hkv
+      obtain ⟨x, hx, rfl⟩ := List.mem_map.mp hkv
+      simp [hlen x hx]
+    have hKs : SortedKV K := by
+      unfold SortedKV at hs ⊢
+      rw [hK, List.pairwise_map] at hs
+      simpa using hs
+    obtain ⟨L, R, hsplit, hLR⟩ := splitKeys_sorted p K hKs (by
+      intro kv hkv h
+      have := hKlen kv hkv
+      rw [h] at this; simp at this; omega)
+    rw [← hK] at hsplit
+    obtain ⟨⟨l, hl⟩, ⟨r, hr⟩⟩ := encodeFork_ok (encodeMap C f) _ (m : Int) k0 last.1 p L R hcl hsplit c hok'
+    have hsub : (m : Int) - (p.length : Int) - 1 = ((m - p.length - 1 : Nat) : Int) := by omega
+    have hLmem : ∀ kv ∈ L, (false :: kv.1, kv.2) ∈ K := by
+      intro kv hkv; rw [hLR]; apply List.mem_append_left; exact List.mem_map.mpr ⟨kv, hkv, rfl⟩
+    have hRmem : ∀ kv ∈ R, (true :: kv.1, kv.2) ∈ K := by
+      intro kv hkv; rw [hLR]; apply List.mem_append_right; exact List.mem_map.mpr ⟨kv, hkv, rfl⟩
+    have hKenc : ∀ kv ∈ K, C.enc kv.2 = .ok (pay kv.2) := by
+      intro kv hkv
+      obtain ⟨x, hx, rfl⟩ := List.mem_map.mp hkv
+      exact henc x hx
+    have hLs : SortedKV L := by
+      unfold SortedKV at hKs ⊢
+      rw [hLR, List.pairwise_append] at hKs
+      have := hKs.1
+      rw [List.pairwise_map] at this
+      simpa using this
+    have hRs : SortedKV R := by
+      unfold SortedKV at hKs ⊢
+      rw [hLR, List.pairwise_append] at hKs
+      have := hKs.2.1
+      rw [List.pairwise_map] at this
+      simpa using this
+    have hl' := hl
+    have hr' := hr
+    rw [hsub] at hl' hr'
+    obtain ⟨tL, hvL, hmL, heL⟩ := encodeMap_ok_tree C pay f (m - p.length - 1) L l
+      (by intro kv hkv; have := hKlen _ (hLmem kv hkv); simp at this; omega) hLs
+      (fun kv hkv => hKenc (false :: kv.1, kv.2) (hLmem kv hkv)) hl'
+    obtain ⟨tR, hvR, hmR, heR⟩ := encodeMap_ok_tree C pay f (m - p.length - 1) R r
+      (by intro kv hkv; have := hKlen _ (hRmem kv hkv); simp at this; omega) hRs
+      (fun kv hkv => hKenc (true :: kv.1, kv.2) (hRmem kv hkv)) hr'
+    refine ⟨.fork (canonLbl p m) tL tR, ?_, ?_, ?_⟩
+    · simp only [HTree.Valid, canonLbl_bits]
+      exact ⟨by omega, hvL, hvR⟩
+    · simp only [HTree.meaning, canonLbl_bits, hmL, hmR]
+      rw [hK, hLR]
+      simp [List.map_append, List.map_map, Function.comp_def]
+    · simp only [encodeFork, hcl, hsplit, hl, hr, encLabelBits_eq] at hok'
+      have := mkCell_eq_of_ok _ _ _ hok'
+      rw [this, heL, heR]
+      simp [HTree.toCell]
+
+/-! ### `Compare` of the typed keys is the model's comparison of their encodings -/
+
+theorem bytesToBits_length (a : List UInt8) : (bytesToBits a).length = 8 * a.length := by
+  induction a with
+  | nil => rfl
+  | cons x a ih =>
+    simp only [bytesToBits, List.flatMap_cons, List.length_append, List.length_cons] at ih ⊢
+    rw [ih]; simp [byteToBits]; omega
+
+theorem uint_compare_eq (n a b : Nat) (ha : a < 2 ^ n) (hb : b < 2 ^ n) :
+    ltUnsigned (natToBits n a) (natToBits n b) = decide (a < b) := by
+  simp [ltUnsigned, bitsToNat_natToBits, Nat.mod_eq_of_lt ha, Nat.mod_eq_of_lt hb]
+
+/-- `uint32(int8 workchain)` as Go computes it -/
+def u32OfInt (wc : Int) : Nat := (wc % (2 ^ 32 : Int)).toNat
+
+/-- AddressWithWorkchain.Compare on the typed key: uint32 of the workchain, then bytes.Compare of the address -/
+def ltAddr (wc1 : Int) (a1 : List UInt8) (wc2 : Int) (a2 : List UInt8) : Bool :=
+  decide (u32OfInt wc1 < u32OfInt wc2) || (u32OfInt wc1 == u32OfInt wc2 && ltBytes a1 a2)
+
+theorem u32OfInt_lt (wc : Int) : u32OfInt wc < 2 ^ 32 := by
+  unfold u32OfInt
+  have h1 : (0 : Int) ≤ wc % 2 ^ 32 := Int.emod_nonneg _ (by decide)
+  have h2 : wc % (2 ^ 32 : Int) < 2 ^ 32 := Int.emod_lt_of_pos _ (by decide)
+  have : ((wc % (2 ^ 32 : Int)).toNat : Int) < ((2 ^ 32 : Nat) : Int) := by
+    rw [Int.toNat_of_nonneg h1]; exact_mod_cast h2
+  exact_mod_cast this
+
+theorem addr_compare_eq (wc1 wc2 : Int) (a1 a2 : List UInt8) (h : a1.length = a2.length) :
+    ltAddr wc1 a1 wc2 a2 = lexLt (intToBits 32 wc1 ++ bytesToBits a1) (intToBits 32 wc2 ++ bytesToBits a2) := by
+  have e1 : intToBits 32 wc1 = natToBits 32 (u32OfInt wc1) := rfl
+  have e2 : intToBits 32 wc2 = natToBits 32 (u32OfInt wc2) := rfl
+  rw [lexLt_append_eqlen _ _ _ _ (by simp [intToBits]), ← ltBytes_eq_lexLt a1 a2 h, e1, e2]
+  have hl := lexLt_iff_bitsToNat (natToBits 32 (u32OfInt wc1)) (natToBits 32 (u32OfInt wc2)) (by simp)
+  simp only [bitsToNat_natToBits, Nat.mod_eq_of_lt (u32OfInt_lt wc1), Nat.mod_eq_of_lt (u32OfInt_lt wc2)] at hl
+  unfold ltAddr
+  by_cases heq : u32OfInt wc1 = u32OfInt wc2
+  · rw [heq]
+    simp [lexLt_irrefl]
+  · have hne : (natToBits 32 (u32OfInt wc1) == natToBits 32 (u32OfInt wc2)) = false := by
+      simp only [beq_eq_false_iff_ne, ne_eq]
+      intro hb
+      have := congrArg bitsToNat hb
+      simp only [bitsToNat_natToBits, Nat.mod_eq_of_lt (u32OfInt_lt wc1), Nat.mod_eq_of_lt (u32OfInt_lt wc2)] at this
+      exact heq this
+    have hne2 : (u32OfInt wc1 == u32OfInt wc2) = false := by simpa using heq
+    simp only [hne, hne2, Bool.false_and, Bool.or_false]
+    cases hlx : lexLt (natToBits 32 (u32OfInt wc1)) (natToBits 32 (u32OfInt wc2))
+    · simp only [decide_eq_false_iff_not]; intro h2; rw [hl.mpr h2] at hlx; cases hlx
+    · simp only [decide_eq_true_eq]; exact hl.mp hlx
+
 end Tongo.Hashmap
